@@ -209,6 +209,10 @@ def check(ctx):
     B.must_raise("G6", ax_init, "Axis with a non-numeric fill value", lambda: run_axis_init(P, ["center", "left"], fill_value="abc"))
     B.must_raise("G5", disp, "unknown boundary word through diff outer->center (zero-width stencil)", lambda: full_dispatch(P, "diff", "outer", "center", kwargs={"boundary": "bogus"}))
     B.must_raise("G5", disp, "unknown boundary word through diff center->left", lambda: full_dispatch(P, "diff", "center", "left", kwargs={"boundary": "bogus"}))
+    # ... also when it stands for an axis the operation does not act along (pad() validates the rule of every grid axis)
+    B.must_raise("G5", disp, "unknown boundary word for another axis of a mapping, through diff", lambda: full_dispatch(P, "diff", "center", "left", axnames=("AX", "AY"), axis_arg=AX, kwargs={"boundary": {AX: "extend", AY: "bogus"}}))
+    B.must_raise("G6", disp, "non-numeric fill value for another axis of a mapping, through diff", lambda: full_dispatch(P, "diff", "center", "left", axnames=("AX", "AY"), axis_arg=AX, kwargs={"boundary": "fill", "fill_value": {AX: 1.0, AY: "abc"}}))
+    B.must_return("G5", disp, "valid: per-axis mapping of known words through diff", lambda: full_dispatch(P, "diff", "center", "left", axnames=("AX", "AY"), axis_arg=AX, kwargs={"boundary": {AX: "extend", AY: "fill"}}))
     B.must_raise("G6", disp, "non-numeric fill value through interp center->inner (zero-width stencil)", lambda: full_dispatch(P, "interp", "center", "inner", kwargs={"fill_value": "abc"}))
     B.must_raise("G5", cums, "unknown boundary word through cumsum center->right (zero width)", lambda: _cumsum_real_pad(P, "center", "right", boundary="bogus"))
     B.must_return("G5", cums, "valid: cumsum center->right with boundary 'extend'", lambda: _cumsum_real_pad(P, "center", "right", boundary="extend"))
